@@ -512,13 +512,13 @@ static void runMergeTask(W& w, const MergeTask& t, char oracle)
 
 // ---------------------------------------------------------------------------------------------
 // C17 alphabet (state-relative)
-constexpr int SYM_PER_EP = 22;
+constexpr int SYM_PER_EP = 23;
 // endpoint D takes part with a reduced symbol set {U, F, I, L, payload-type 0}
 constexpr int ND = 5;
 static const int kDKinds[ND] = {0, 2, 5, 6, 12};
 constexpr int EPLESS = 3 * SYM_PER_EP + ND;   // first endpoint-less symbol
 constexpr int NSYM = EPLESS + 3;
-static const char* kSymName[SYM_PER_EP] = {"U", "UU", "F", "Ft", "F2", "I", "L", "Ib", "Lb", "Lv", "Lt", "It", "Z", "E", "O", "H", "UF", "P", "UI", "UL", "P1", "T0"};
+static const char* kSymName[SYM_PER_EP] = {"U", "UU", "F", "Ft", "F2", "I", "L", "Ib", "Lb", "Lv", "Lt", "It", "Z", "E", "O", "H", "UF", "P", "UI", "UL", "P1", "T0", "L0"};
 
 static std::string symName(int sym)
 {
@@ -640,6 +640,8 @@ static Bytes symbolFrame(int sym, const ref::ReassemblyModel& m, bool& isNull, i
             f.push_back(0x01);
             return f;
         }
+        // a LAST segment without payload bytes (completes the message all the same)
+        case 22: fh.seq = next; fh.version = over; fh.msgType = otyp; return ref::buildFrame(fh, {seg(ref::SEG_LAST, 0, 24)});
         case 18: fh.seq = next; fh.version = over; fh.msgType = otyp; return ref::buildFrame(fh, {seg(0, 2, 20), seg(ref::SEG_MID, 3, 21)});
         case 19: fh.seq = next; fh.version = over; fh.msgType = otyp; return ref::buildFrame(fh, {seg(0, 2, 22), seg(ref::SEG_LAST, 2, 23)});
         default:
@@ -681,6 +683,7 @@ static std::vector<int> sharpAlphabet()
         for (int k : {0, 2, 5, 6, 12, 19})
             a.push_back(ep * SYM_PER_EP + k);
     a.push_back(0 * SYM_PER_EP + 21);   // truncated TECMP-like buffer carrying A's ids
+    a.push_back(0 * SYM_PER_EP + 22);   // zero-length last segment of A
     for (int i = 0; i < ND; ++i)
         a.push_back(3 * SYM_PER_EP + i);
     return a;
@@ -919,16 +922,22 @@ static BaseHist baseHistory(int which)
         h.frames = f;
         h.frameEp.assign(f.size(), 0);
     }
-    else if (which == 2)
+    else if (which == 2 || which == 5)
     {
+        // base 5: the second endpoint is D, which differs from A in the HIGH byte of the device id only, and its frames are zero-padded
+        // to 64 bytes (the padding parses as a message of payload type 0, i.e. every padded frame ends in an invalid message)
         std::vector<Bytes> fa, fb;
         encodeFor(0, 0, 40, 10, fa, h.sent);
-        encodeFor(1, 0, 40, 60, fb, h.sent);
+        if (which == 2)
+            encodeFor(1, 0, 40, 60, fb, h.sent);
+        else
+            encodeFor(3, 64, 100, 60, fb, h.sent);
+        const int epB = which == 2 ? 1 : 3;
         size_t i = 0, j = 0;
         while (i < fa.size() || j < fb.size())
         {
             if (i < fa.size()) { h.frames.push_back(fa[i++]); h.frameEp.push_back(0); }
-            if (j < fb.size()) { h.frames.push_back(fb[j++]); h.frameEp.push_back(1); }
+            if (j < fb.size()) { h.frames.push_back(fb[j++]); h.frameEp.push_back(epB); }
         }
     }
     else
@@ -1245,14 +1254,15 @@ int main(int argc, char** argv)
             return run.run_single(readCase(opt.case_file));
         const int maxFaults = thorough ? 3 : 2;
         std::vector<BaseHist> bases;
-        for (int b = 0; b < 5; ++b)
+        const int NBASE = 6;
+        for (int b = 0; b < NBASE; ++b)
             bases.push_back(baseHistory(b));
         for (int nf = 0; nf <= maxFaults; ++nf)
         {
             // outer: (base, first fault kind, first fault position)
             struct T { int base, kind, pos; };
             std::vector<T> ts;
-            for (int b = 0; b < 5; ++b)
+            for (int b = 0; b < NBASE; ++b)
             {
                 if (nf == 0)
                 {
@@ -1263,7 +1273,7 @@ int main(int argc, char** argv)
                     for (size_t p = 0; p < bases[b].frames.size(); ++p)
                         ts.push_back({b, k, (int) p});
             }
-            run.round(fmt("all fault sequences with exactly %d fault(s) on 5 base histories", nf), ts.size(), [&, nf, ts](W& w, uint64_t o) {
+            run.round(fmt("all fault sequences with exactly %d fault(s) on 6 base histories", nf), ts.size(), [&, nf, ts](W& w, uint64_t o) {
                 const T& t = ts[o];
                 const BaseHist& h = bases[t.base];
                 FaultCase fc;
@@ -1308,8 +1318,9 @@ int main(int argc, char** argv)
             });
         }
         run.extra.push_back({"max_faults", mc::Json::num((uint64_t) maxFaults)});
-        run.rule = "5 base histories (real encoder output for [small,small,3-seg,small,2-seg,4-seg,small] at (0,40) and (64,100), the same for two "
-                   "endpoints interleaved round-robin, a hand-built stream crossing the 65535->0 wrap, the same crossing 32767->32768) x ALL sequences of <= k faults from "
+        run.rule = "6 base histories (real encoder output for [small,small,3-seg,small,2-seg,4-seg,small] at (0,40) and (64,100), the same for two "
+                   "endpoints interleaved round-robin, a hand-built stream crossing the 65535->0 wrap, the same crossing 32767->32768, two endpoints differing in the high "
+                   "byte of the device id only of which one sends zero-padded frames) x ALL sequences of <= k faults from "
                    "{drop, duplicate-after, duplicate-two-later, swap, corrupt-version, corrupt-type} at every position; distinct = distinct delivery "
                    "patterns (which sent packet is delivered at which position)";
         return run.finish();
